@@ -33,6 +33,11 @@ pub enum Lop {
 	/// a clone of opener `id`'s handle is dropped on a plain OS thread (no async runtime there)
 	/// while the opener itself stays open: the directory must stay locked
 	DropCloneElsewhere(u8),
+	/// the opener's handle is dropped while a transaction begun from it is still alive; the
+	/// transaction is dropped afterwards (the runtime is run until the lock is given back)
+	DropWithLiveTxn(u8),
+	/// close() is started (polled once) and abandoned, then close() is called again and awaited
+	CloseTwice(u8),
 }
 
 fn lop_str(o: &Lop) -> String {
@@ -44,6 +49,8 @@ fn lop_str(o: &Lop) -> String {
 		Lop::ChildKill => "child-kill".into(),
 		Lop::RaceOpen(i) => format!("open{i}-while-owner-closes"),
 		Lop::DropCloneElsewhere(i) => format!("drop-clone-of-{i}-on-plain-thread"),
+		Lop::DropWithLiveTxn(i) => format!("drop{i}-with-live-transaction"),
+		Lop::CloseTwice(i) => format!("close{i}-abandoned-then-close{i}"),
 	}
 }
 
@@ -79,6 +86,16 @@ fn lock_is_free(dir: &Path) -> bool {
 		unsafe { libc::flock(fd, libc::LOCK_UN) };
 	}
 	got
+}
+
+fn noop_waker() -> std::task::Waker {
+	use std::task::{RawWaker, RawWakerVTable, Waker};
+	fn no(_: *const ()) {}
+	fn clone(_: *const ()) -> RawWaker {
+		RawWaker::new(std::ptr::null(), &VT)
+	}
+	static VT: RawWakerVTable = RawWakerVTable::new(clone, no, no, no);
+	unsafe { Waker::from_raw(RawWaker::new(std::ptr::null(), &VT)) }
 }
 
 struct ChildProc(Child);
@@ -257,6 +274,71 @@ pub fn run_seq(ops: &[Lop]) -> Result<Option<(String, String)>, String> {
 					owner = Some(format!("opener{id}"));
 					openers.insert(*id, w);
 				}
+				Lop::DropWithLiveTxn(id) => {
+					if let Some(mut w) = openers.remove(id) {
+						let txn = {
+							let _g = w.rt.as_ref().unwrap().enter();
+							w.tree().begin_with_mode(surrealkv::Mode::ReadOnly).map_err(|e| ctx(format!("begin: {e}")))?
+						};
+						{
+							let _g = w.rt.as_ref().unwrap().enter();
+							w.tree = None;
+						}
+						w.drain();
+						{
+							let _g = w.rt.as_ref().unwrap().enter();
+							drop(txn);
+						}
+						let rt = w.rt.take().unwrap();
+						let mut released = false;
+						for _ in 0..200 {
+							rt.block_on(async { tokio::time::sleep(std::time::Duration::from_millis(25)).await });
+							if lock_is_free(&dir) {
+								released = true;
+								break;
+							}
+						}
+						drop(rt);
+						if !released {
+							return Ok(Some(("directory-stays-locked-after-drop".into(), ctx("the handle and its last transaction were dropped and the runtime ran for 5 s, but the directory lock is still held".into()))));
+						}
+						owner = None;
+					}
+				}
+				Lop::CloseTwice(id) => {
+					if let Some(mut w) = openers.remove(id) {
+						use std::future::Future;
+						let r = {
+							let rt = w.rt.as_ref().unwrap();
+							let tree = w.tree().clone();
+							// first close: polled once, then abandoned
+							{
+								let _g = rt.enter();
+								let mut f = Box::pin(tree.close());
+								let waker = noop_waker();
+								let mut cx = std::task::Context::from_waker(&waker);
+								let _ = f.as_mut().poll(&mut cx);
+							}
+							rt.block_on(tree.close())
+						};
+						if let Err(e) = r {
+							return Err(ctx(format!("second close: {e}")));
+						}
+						// the second close() returned Ok: the directory must be free NOW, with the handle
+						// still alive and nothing else run (a later Drop would finish the job and hide it)
+						let released = lock_is_free(&dir);
+						let rt = w.rt.take().unwrap();
+						{
+							let _g = rt.enter();
+							w.tree = None;
+						}
+						drop(rt);
+						if !released {
+							return Ok(Some(("close-returned-but-directory-locked".into(), ctx("close() returned Ok (after an earlier, abandoned close) but the directory lock is still held".into()))));
+						}
+						owner = None;
+					}
+				}
 				Lop::DropCloneElsewhere(id) => {
 					if let Some(w) = openers.get(id) {
 						let clone = w.tree().clone();
@@ -313,6 +395,16 @@ fn gen(maxlen: usize) -> Vec<Vec<Lop>> {
 			cur.push(Lop::DropCloneElsewhere(1));
 			rec(maxlen, cur, o1, o2, ch, out);
 			cur.pop();
+		}
+		if o1 {
+			for op in [Lop::DropWithLiveTxn(1), Lop::CloseTwice(1)] {
+				if cur.iter().any(|o| matches!(o, Lop::DropWithLiveTxn(_) | Lop::CloseTwice(_))) {
+					continue;
+				}
+				cur.push(op);
+				rec(maxlen, cur, false, o2, ch, out);
+				cur.pop();
+			}
 		}
 		if o1 {
 			for op in [Lop::Close(1), Lop::Drop(1)] {
@@ -415,6 +507,8 @@ pub fn replay(r: &J) -> i32 {
 			"drop1" => Lop::Drop(1),
 			"drop2" => Lop::Drop(2),
 			"child-open" => Lop::ChildOpen,
+			"drop1-with-live-transaction" => Lop::DropWithLiveTxn(1),
+			"close1-abandoned-then-close1" => Lop::CloseTwice(1),
 			"drop-clone-of-1-on-plain-thread" => Lop::DropCloneElsewhere(1),
 			"drop-clone-of-2-on-plain-thread" => Lop::DropCloneElsewhere(2),
 			"open1-while-owner-closes" => Lop::RaceOpen(1),
